@@ -14,7 +14,19 @@ pub enum Seg {
 
 /// render one file's segments as a unified diff section with `u` context lines
 pub fn render(segs: &[Seg], u: usize, path: &str, new_file: bool, no_newline_at_end: bool) -> String {
+    render_nl(segs, u, path, new_file, no_newline_at_end, false)
+}
+
+/// `new_nn` / `old_nn`: the new / the old version of the file lacks the final line break; git then writes the marker
+/// `\ No newline at end of file` after the last line of that side - for the old side that is in the MIDDLE of the hunk
+/// body when additions follow the last removed line
+pub fn render_nl(segs: &[Seg], u: usize, path: &str, new_file: bool, new_nn: bool, old_nn: bool) -> String {
     let n = segs.len();
+    let last_old = segs.iter().rposition(|s| !matches!(s, Seg::Add(_)));
+    let last_new = segs.iter().rposition(|s| !matches!(s, Seg::Del(_)));
+    // a kept last line stands for both sides: it cannot lack the line break on one side only
+    let old_nn = old_nn && !new_file && !(last_old == last_new && !new_nn);
+    let new_nn = new_nn || (old_nn && last_old == last_new);
     let changed: Vec<bool> = segs.iter().map(|s| !matches!(s, Seg::Keep(_))).collect();
     if !changed.iter().any(|c| *c) {
         return String::new();
@@ -56,7 +68,8 @@ pub fn render(segs: &[Seg], u: usize, path: &str, new_file: bool, no_newline_at_
                 Seg::Del(t) => out += &format!("-{t}\n"),
                 Seg::Add(t) => out += &format!("+{t}\n"),
             }
-            if no_newline_at_end && lo + k + 1 == n && !matches!(s, Seg::Del(_)) {
+            let idx = lo + k;
+            if (new_nn && Some(idx) == last_new) || (old_nn && Some(idx) == last_old) {
                 out += "\\ No newline at end of file\n";
             }
         }
@@ -297,7 +310,8 @@ pub fn generate(_ctx: &mut Ctx, seed: u64, i: usize, mode: &str) -> Case {
             build_script(&mut rng, plan, targeted)
         };
         let no_nl = rng.chance(1, 12);
-        sections[k] = render(&script.segs, u, &plan.path, new_file, no_nl);
+        let old_nn = !new_file && rng.chance(1, 8);
+        sections[k] = render_nl(&script.segs, u, &plan.path, new_file, no_nl, old_nn);
         let mut text: String = plan.lines.iter().map(|l| format!("{l}\n")).collect();
         if no_nl { text.pop(); }
         files.push((plan.path.clone(), Some(text)));
